@@ -69,3 +69,16 @@ Definition align_corners_passthrough_ok : bool :=
   && Nat.eqb (length gen_align_corners_passthrough) 6.
 Lemma align_corners_passthrough_holds : align_corners_passthrough_ok = true.
 Proof. vm_compute. reflexivity. Qed.
+
+(* suffix dispatch: every file name suffix is written and read by the same backend (so a file goes back through the
+   reader that mirrors its writer), no suffix falls through, and the five formats of the property go where the model
+   puts them (.mha native MetaImage; .nii / .nii.gz native NIfTI; .mhd / .nrrd SimpleITK), case-insensitively *)
+Definition dispatch_ok : bool :=
+  forallb (fun e => match e with (_, (w, r)) =>
+                      backend_eqb w r && negb (backend_eqb w BNone) && negb (backend_eqb w BError) end) gen_dispatch
+  && forallb (fun e => match e with (s, b) =>
+                match assoc String.eqb s gen_dispatch with Some (w, _) => backend_eqb w b | None => false end end)
+       [(".mha", BMeta); (".MHA", BMeta); (".mhd", BSitk); (".Mhd", BSitk); (".nii", BNifti); (".nii.gz", BNifti);
+        (".NII.GZ", BNifti); (".nrrd", BSitk)]%string.
+Lemma dispatch_holds : dispatch_ok = true.
+Proof. vm_compute. reflexivity. Qed.
